@@ -71,7 +71,11 @@ void h_parse_robust (void)
 		if (f->sections == NULL) CANARY ("nothing parsed");
 	} else CANARY ("open failed");
 	p_ini_file_free (f);
+#ifdef ALLOC_STRICT
+	OBL (g_allocs == g_frees, "C18/C20: whichever allocation failed during parsing, nothing stays allocated once the object is freed");
+#else
 	OBL (g_alloc_failed || g_allocs == g_frees, "everything allocated while parsing is released with the object (allocation failures aside: see C18)");
+#endif
 }
 
 /* ---- documented grammar on templates: "[s]" then one key line */
